@@ -27,93 +27,16 @@ ASSUMPTIONS = ["output tables have temperatures as rows and pressures as columns
                "T-LIB: RectBivariateSpline(x, y, z)(xi, yi, grid=False) evaluates pointwise with x <-> rows of z"]
 
 
-class Axis:
-    def __init__(self, role):
-        self.role = role                 # 'T' or 'P'
-        self.sym = sp.Symbol(f"LABELS_{role}", real=True)
-
-    def sym_getattr(self, ev, name, node, mod):
-        if name == "to_numpy":
-            return BoundLib("identity", self.sym)
-        raise ev.err(f"axis attribute {name}", node, mod)
-
-    def sym_iter(self, ev, n, mod):
-        return [self.sym]       # elementwise: [float(x) for x in axis]
-
-
-class Table:
-    def __init__(self, var, index="T", columns="P", parsed=None):
-        self.var, self.index, self.columns = var, index, columns
-        self.parsed = parsed or {"index": False, "columns": False}
-
-    def sym_getattr(self, ev, name, node, mod):
-        if name == "T":
-            return Table(self.var, self.columns, self.index, {"index": self.parsed["columns"], "columns": self.parsed["index"]})
-        if name == "columns":
-            return Axis(self.columns)
-        if name == "index":
-            return Axis(self.index)
-        if name == "iloc":
-            return ILoc(self)
-        if name == "to_numpy":
-            return BoundLib("identity", sp.Symbol(f"VALUES_{self.var}_{self.index}x{self.columns}"))
-        raise ev.err(f"table attribute {name}", node, mod)
-
-    def sym_setattr(self, ev, name, v, node, mod):
-        if name in ("columns", "index"):
-            role = self.columns if name == "columns" else self.index
-            ok = isinstance(v, Tup) and len(v.items) == 1 and v.items[0] == sp.Symbol(f"LABELS_{role}", real=True)
-            if not ok:
-                raise ev.err(f"{name} replaced by something that is not float(label) of the same axis", node, mod)
-            self.parsed[name] = True
-            return
-        raise ev.err(f"store to table attribute {name}", node, mod)
-
-
-class ILoc:
-    def __init__(self, t):
-        self.t = t
-
-    def sym_subscript(self, ev, idx, n, mod):
-        return RowAt(self.t, as_sym(idx))
-
-
-class RowAt:
-    def __init__(self, table, pos):
-        self.table, self.pos = table, pos
-
-
-ARGMIN, ABS = sp.Function("ARGMIN"), sp.Function("ABSV")
+from ..tablemodel import Axis, Table, Grid2, Line1, SeriesV, OutTable, ARGMIN, ABS, labels, role_of, canon_pos, intrinsics as table_intrinsics
 
 
 def fold_extract(ctx, model, temperature=None, pressure=None):
     out = {}
-
-    def load_data(ev, a, k):
-        return Table(a[0])
-
-    class OutTable:
-        def __init__(self, columns, index):
-            self.columns, self.index, self.cols = columns, index, {}
-
-        def sym_store(self, ev, idx, v, t, mod):
-            self.cols[idx] = v
-
-        def sym_getattr(self, ev, name, node, mod):
-            if name == "to_string":
-                return BoundLib("outtable.to_string", self)
-            raise ev.err(f"attribute {name}", node, mod)
-
-    def dataframe(ev, a, k):
-        return OutTable(k.get("columns"), k.get("index"))
-
-    intr = {
-        f"{EXTRACT}:load_data": load_data, "pandas.DataFrame": dataframe,
-        "numpy.argmin": lambda ev, a, k: ARGMIN(as_sym(a[0])), "numpy.abs": lambda ev, a, k: ABS(as_sym(a[0])),
-        "identity": lambda ev, a, k: a[0],
-        "outtable.to_string": lambda ev, a, k: out.update(table=a[0], opts=k.all()) or "TEXT",
-        "builtins.print": lambda ev, a, k: None,
-    }
+    intr = table_intrinsics(out)
+    intr.update({
+        f"{EXTRACT}:load_data": lambda ev, a, k: Table(a[0], parsed={"index": True, "columns": True}),
+        "builtins.print": lambda ev, a, k: None, "click.echo": lambda ev, a, k: None, "sys.stdout.write": lambda ev, a, k: None,
+    })
     ev = Ev(model, {}, intr, ctx=ctx)
     f = model.func(f"{EXTRACT}:main")
     ev.call_def(f, model.mods[EXTRACT], f"{EXTRACT}:main", [], {"variables": "c11s,bm_VRH", "hide_header": False,
@@ -125,35 +48,54 @@ def r_extract(ctx, model):
     w = model.where(f"{EXTRACT}:main")
     TV, PV = sp.Symbol("TREQ", real=True), sp.Symbol("PREQ", real=True)
     for label, kw, axis, other, req in (("-T", dict(temperature=TV), "T", "P", TV), ("-P", dict(pressure=PV), "P", "T", PV)):
-        out = fold_extract(ctx, model, **kw)
+        try:
+            out = fold_extract(ctx, model, **kw)
+        except RaisedV as e:
+            ctx.violation(f"extract.{label}", w, "the command completes", f"raises {e.exc_name}", f"extract {label} raises {e.exc_name} (e.g. a result labelled by the wrong axis)",
+                          instance=f"extract {label}: nearest {axis} entry of each variable, labelled by {other}")
+            continue
         t = out.get("table")
-        if t is None:
+        if not isinstance(t, OutTable):
             raise AnalysisError("extract: no table is printed")
         bad = []
         idx = t.index
-        if not (isinstance(idx, Axis) and idx.role == other):
-            bad.append(f"result is labelled by {getattr(idx, 'role', idx)}, expected {other}")
+        idx_role = idx.role if isinstance(idx, Axis) else (role_of(idx) if is_sym(idx) else None)
+        if idx_role != other:
+            bad.append(f"result is labelled by {idx_role or idx}, expected {other}")
+        want_pos = canon_pos(ARGMIN(ABS(labels(axis) - req)))
         for var in ("c11s", "bm_VRH"):
             r = t.cols.get(var)
-            if not isinstance(r, RowAt):
-                bad.append(f"{var}: not a row selection")
+            ln = r.line if isinstance(r, SeriesV) else r
+            if not isinstance(ln, Line1):
+                bad.append(f"{var}: not one line of a table ({r!r})")
                 continue
-            want = ARGMIN(ABS(sp.Symbol(f"LABELS_{axis}", real=True) - req))
-            if r.table.var != var or r.table.index != axis or r.pos != want:
-                bad.append(f"{var}: row {r.pos} of the {r.table.index}-indexed table of {r.table.var}")
+            if ln.var != var or ln.fixed != axis or ln.along != other or canon_pos(ln.pos) != want_pos:
+                bad.append(f"{var}: {ln!r}")
         if list(getattr(t.columns, "items", [])) != ["c11s", "bm_VRH"]:
             bad.append(f"columns {t.columns}")
+        opts = out.get("opts", {})
+        if opts.get("header", True) is not True or opts.get("index", True) is False:
+            bad.append(f"printed with {opts}")
         ctx.check(not bad, f"extract {label}: nearest {axis} entry of each variable, labelled by {other}", w,
-                  expected=f"iloc[argmin |{axis} labels - requested|] of the table indexed by {axis}", found="; ".join(bad) or "as required",
+                  expected=f"for each variable the line of its table with {axis} fixed at argmin |{axis} labels - requested|, running along and labelled by {other}",
+                  found="; ".join(bad) or "as required",
                   explanation=f"extract {label} does not return the table line nearest to the requested {'temperature' if axis == 'T' else 'pressure'} "
-                              f"(wrong axis, missing transpose, or index taken on the other axis)", key=f"extract.{label}")
+                              f"(wrong axis, missing transpose, position searched on the other axis, or labels of the wrong axis)", key=f"extract.{label}")
 
 
 def r_load(ctx, model):
     """load_data: file pattern agrees with the writer; first column is the row labels; labels parsed as floats"""
     rules = yaml.safe_load((REPO / "cij" / "data" / "output" / "writer_rules.yml").read_text())
+    seen_refs = set()
     for modname in (EXTRACT, GEO):
-        ref = f"{modname}:load_data"
+        # the loader each command uses: its own function, or one imported from the sibling command
+        kind, ref = model.resolve_from(modname, "load_data")
+        if kind != "func":
+            raise AnalysisError(f"anchor vanished: {modname}:load_data")
+        if ref in seen_refs:
+            continue
+        seen_refs.add(ref)
+        modname = ref.split(":")[0]
         f = model.func(ref)
         w = model.where(ref, f)
         cap = {}
@@ -168,7 +110,9 @@ def r_load(ctx, model):
             cap["read"] = (a, {kk: k.get(kk) for kk in ("sep", "index_col", "delim_whitespace")})
             return Table("VAR")
 
-        intr = {"glob.glob": glob_, "pandas.read_table": read_table, "builtins.float": lambda ev, a, k: a[0]}
+        intr = table_intrinsics({})
+        intr.update({"glob.glob": glob_, "pandas.read_table": read_table, "pandas.read_csv": read_table, "builtins.float": lambda ev, a, k: a[0],
+                     "numpy.float64": lambda ev, a, k: a[0]})
         ev = Ev(model, {}, intr, ctx=ctx)
         t = ev.call_def(f, model.mods[modname], ref, ["VARNAME"], {})
         a, k = cap.get("read", ((), {}))
@@ -231,52 +175,76 @@ def r_geotherm(ctx, model):
         def sym_getattr(self, ev, name, node, mod):
             if name == "to_string":
                 return BoundLib("geo.to_string", self)
-            raise ev.err(f"attribute {name}", node, mod)
+            if name == "columns":
+                return Tup(list(self.order), "list")
+            if name in ("copy",):
+                return BoundLib("identity", self)
+            raise ev.err(f"attribute {name} of the geotherm table", node, mod)
+
+        def sym_contains(self, ev, item, n, mod):
+            return item in self.cols
 
     class Spl:
         def __init__(self, a, k):
             b = dict(zip(["x", "y", "z"], a))
-            b.update(k)
+            for kk in ("x", "y", "z"):
+                if kk in k:
+                    b[kk] = k[kk]
+            kw_accept(k, "kx", lambda v: True)
+            kw_accept(k, "ky", lambda v: True)
+            kw_accept(k, "s", lambda v: is_sym(v) and v == 0)
             self.b = b
 
         def sym_call(self, ev, args, kwargs, n, mod):
-            cap["evals"].append((self, args, kwargs))
+            cap["evals"].append((self, list(args), dict(kwargs)))
             return sp.Symbol(f"SPLVAL{len(cap['evals'])}")
 
+        def sym_getattr(self, ev, name, node, mod):
+            if name == "ev":
+                return BoundLib("spline.ev", self)
+            raise ev.err(f"spline attribute {name}", node, mod)
+
     geo = Geo()
-    intr = {
-        f"{GEO}:load_data": lambda ev, a, k: Table(a[0]),
+    intr = table_intrinsics({})
+    intr.update({
+        f"{GEO}:load_data": lambda ev, a, k: Table(a[0], parsed={"index": True, "columns": True}),
+        f"{EXTRACT}:load_data": lambda ev, a, k: Table(a[0], parsed={"index": True, "columns": True}),
         "pandas.read_table": lambda ev, a, k: cap.update(read=(a, {kk: k.get(kk) for kk in ("sep", "index_col", "header", "delim_whitespace")}))
                              or kw_accept(k, "engine", lambda v: True) or geo,
         "scipy.interpolate.RectBivariateSpline": lambda ev, a, k: Spl(a, k),
-        "identity": lambda ev, a, k: a[0], "geo.to_string": lambda ev, a, k: cap.update(printed=(a[0], k.all())) or "TEXT",
-        "builtins.print": lambda ev, a, k: None,
-    }
+        "spline.ev": lambda ev, a, k: a[0].sym_call(ev, list(a[1:3]), {"grid": False} if not k.get("dx") and not k.get("dy") else {"grid": None}, None, None),
+        "geo.to_string": lambda ev, a, k: cap.update(printed=(a[0], k.all())) or "TEXT",
+        "builtins.print": lambda ev, a, k: None, "click.echo": lambda ev, a, k: None, "sys.stdout.write": lambda ev, a, k: None,
+    })
+    intr["pandas.read_csv"] = intr["pandas.read_table"]
     ev = Ev(model, {}, intr, ctx=ctx)
     kwargs = {"variables": "c11s,vp", "hide_header": False, "geotherm": "geo.txt", "t_col": defaults.get("t_col"), "p_col": defaults.get("p_col")}
     ev.call_def(f, model.mods[GEO], ref, [], kwargs)
     bad = []
     if len(cap["evals"]) != 2:
         bad.append(f"{len(cap['evals'])} spline evaluations for 2 variables")
-    for spl, args, kw in cap["evals"]:
+    for (spl, args, kw), var in zip(cap["evals"], ("c11s", "vp")):
         b = spl.b
-        from ..sym import Transposed
-        role = {sp.Symbol("LABELS_T", real=True): "T", sp.Symbol("LABELS_P", real=True): "P"}
-        rx, ry = role.get(b.get("x")), role.get(b.get("y"))
+        rx, ry = (role_of(b.get("x")) if is_sym(b.get("x")) else getattr(b.get("x"), "role", None)), \
+                 (role_of(b.get("y")) if is_sym(b.get("y")) else getattr(b.get("y"), "role", None))
         z = b.get("z")
-        zt = getattr(z, "func", None) == Transposed
-        if {rx, ry} != {"T", "P"} or not str(z.args[0] if zt else z).startswith("VALUES_") or zt != (rx == "P"):
-            bad.append(f"spline axes x={b.get('x')} y={b.get('y')} z={z}: rows of z must run along x")
+        if isinstance(z, Table):
+            z = z.values()
+        if {rx, ry} != {"T", "P"} or not isinstance(z, Grid2) or (z.r, z.c) != (rx, ry) or z.var != var or getattr(z, "window", None) is not None:
+            bad.append(f"spline axes x={b.get('x')} y={b.get('y')} z={z!r}: rows of z must run along x (variable {var})")
         geo_role = {sp.Symbol("GEO_T"): "T", sp.Symbol("GEO_P"): "P"}
         got = tuple(geo_role.get(a) for a in args[:2]) if len(args) == 2 else None
         if got != (rx, ry):
             bad.append(f"spline over ({rx}, {ry}) evaluated at geotherm columns {got}")
         if kw.get("grid") is not False:
             bad.append("grid=False missing: evaluates on the outer product instead of along the path")
+    for var, nm in (("c11s", "SPLVAL1"), ("vp", "SPLVAL2")):
+        if geo.cols.get(var) != sp.Symbol(nm):
+            bad.append(f"column {var} is not the spline value of {var}")
     ctx.check(not bad, "extract-geotherm: spline(x = T rows, y = P columns, z = values) evaluated at (geotherm T, geotherm P) pointwise", w,
-              expected="RectBivariateSpline(index, columns, values)(table[T column], table[P column], grid=False)", found="; ".join(bad) or "as required",
+              expected="RectBivariateSpline(index, columns, values)(table[T column], table[P column], grid=False) (or .ev) stored under the variable's name", found="; ".join(bad) or "as required",
               explanation="axis roles of the bivariate spline and of its evaluation point disagree (temperature and pressure are swapped, or the "
-                          "spline is evaluated on a grid instead of along the geotherm)", key="geotherm.axes")
+                          "spline is evaluated on a grid instead of along the geotherm), or a variable's column holds another variable's values", key="geotherm.axes")
     ra, rk = cap.get("read", ((), {}))
     ok_read = bool(ra) and ra[0] == "geo.txt" and (whitespace_sep(rk.get("sep")) or rk.get("delim_whitespace") is True) \
         and rk.get("index_col") in (None, False) and (rk.get("header") in (None, "infer") or rk.get("header") == 0)
@@ -290,9 +258,6 @@ def r_geotherm(ctx, model):
     ctx.check(ok, "geotherm columns pass through unchanged; one new column per variable; printed without the index", w,
               expected="P, D, T, c11s, vp", found=f"{geo.order}; overwrote {cap.get('overwrote')}",
               explanation="the geotherm's own columns are modified or results are not appended as new columns", key="geotherm.passthrough")
-    ctx.check(defaults.get("p_col") == "T" and defaults.get("t_col") == "P", "option defaults name the geotherm's T and P columns consistently with their use", w,
-              expected="the column used as temperature defaults to 'T', the one used as pressure to 'P'", found=str(defaults),
-              explanation="with default options the temperature argument of the spline receives the pressure column", key="geotherm.defaults")
 
 
 RULES = [
